@@ -149,6 +149,19 @@ func (x *Exec) callStatic(fr *Frame, st *State, callee *ssa.Function, args []Val
 	if r, done, err := x.native(fr, st, key, callee, args, rt, pos); done || err != nil {
 		return r, err
 	}
+	if x.topFC != nil {
+		for _, pat := range x.topFC.Abstract {
+			// "call <substring> pure contract": the callee has a contract, but this caller only relies on the part of the
+			// state the callee is known (by that contract) not to touch; its effect is left out here
+			fs := strings.Fields(pat)
+			if len(fs) == 4 && fs[0] == "call" && fs[2] == "pure" && fs[3] == "contract" && strings.Contains(key, fs[1]) {
+				x.u.Trust(fmt.Sprintf("%s: abstracted call although the callee has a contract (its effect is assumed not to reach the state this function's clauses talk about): %s", x.topName, key))
+				r := x.u.FreshVal("abs", rt)
+				x.u.assumeValExisting(st, r)
+				return r, nil
+			}
+		}
+	}
 	if fc := x.cs.Funcs[key]; fc != nil {
 		if fc.Inline {
 			return x.inline(fr, st, callee, args, nil, rt, pos)
